@@ -11,6 +11,8 @@ import DosModel.Proofs.AsmField
 import DosModel.Proofs.MontLimbs
 import DosModel.Proofs.MontRedc
 import DosModel.Proofs.MontInvert
+import DosModel.Proofs.AsmMul
+import DosModel.Proofs.MontMulxRedc
 import DosModel.Model.AsmBn256
 import DosModel.Model.Bn256Field
 
@@ -145,6 +147,50 @@ theorem gfpNeg_asm (s : State) (junk : Nat) (bmi2 : Bool)
   · simp only [load4_store4_same]; rw [hv, hpv]
   · simp only [load4_store4_same]; exact hok
   · intro k i hk; exact store4_other _ _ _ _ hk i
+
+/-- **gfpMul, both code paths**: for EVERY machine state whose operand blocks hold words, and for hasBMI2 = false
+(MULQ path: `mul` + `gfpReduce`, 312 instructions) as well as hasBMI2 = true (MULX path: `mulBMI2` +
+`gfpReduceBMI2`, 187 instructions), the interpreted listing runs to RET without fault, stores in block c exactly
+the four words of `mulM p np a b` — Montgomery REDC of a·b with one conditional subtraction — and changes nothing
+else. Chain: interpreter = flat limb model (kernel-checked unfolding) = composition of the macro blocks
+(kernel-checked) = number model (schoolbook product, truncated m, 512-bit add, gfpCarry; `omega`/`ring`). -/
+theorem gfpMul_asm (s : State) (junk : Nat) (bmi2 : Bool)
+    (ha : (load4 s.mem (s.alias .a)).ok) (hb : (load4 s.mem (s.alias .b)).ok) :
+    ∃ mem', (call (codeEnv bmi2) Gen.Bn256Asm.gfpMul s junk).final = some (s.alias, mem') ∧
+      (load4 mem' (s.alias .c)).val =
+        mulM Bn256.p Bn256.np (load4 s.mem (s.alias .a)).val (load4 s.mem (s.alias .b)).val ∧
+      (load4 mem' (s.alias .c)).ok ∧ ∀ k i, k ≠ s.alias .c → mem' k i = s.mem k i := by
+  have hp : (envP (codeEnv bmi2)).ok := by cases bmi2 <;> (unfold L4.ok; decide)
+  have hpv : (envP (codeEnv bmi2)).val = Bn256.p := by cases bmi2 <;> rfl
+  have hn : (L4.mk ((codeEnv bmi2).np 0) ((codeEnv bmi2).np 1) ((codeEnv bmi2).np 2) ((codeEnv bmi2).np 3)).ok := by
+    cases bmi2 <;> (unfold L4.ok; decide)
+  have hnv : (L4.mk ((codeEnv bmi2).np 0) ((codeEnv bmi2).np 1) ((codeEnv bmi2).np 2) ((codeEnv bmi2).np 3)).val
+      = Bn256.np := by cases bmi2 <;> rfl
+  cases bmi2
+  · obtain ⟨hv, hok⟩ := mulLimbsMULQ_val _ _ _ _ hp hn ha hb
+    refine ⟨_, gfpMul_interp_mulq _ _ s junk, ?_, ?_, ?_⟩
+    · simp only [load4_store4_same]; exact hv.trans (by rw [hpv, hnv])
+    · simp only [load4_store4_same]; exact hok
+    · intro k i hk; exact store4_other _ _ _ _ hk i
+  · obtain ⟨hv, hok⟩ := mulLimbsMULX_val _ _ _ _ hp hn ha hb
+    refine ⟨_, gfpMul_interp_mulx _ _ s junk, ?_, ?_, ?_⟩
+    · simp only [load4_store4_same]; exact hv.trans (by rw [hpv, hnv])
+    · simp only [load4_store4_same]; exact hok
+    · intro k i hk; exact store4_other _ _ _ _ hk i
+
+/-- the statement of the property for Montgomery multiplication on both assembly paths: whenever
+a·b < R·p (both operands reduced, or one of them an ARBITRARY 256-bit value), the interpreted assembly stores
+a reduced value r with r·R ≡ a·b (mod p), i.e. r = a·b·R⁻¹ mod p -/
+theorem gfpMul_asm_field (s : State) (junk : Nat) (bmi2 : Bool)
+    (ha : (load4 s.mem (s.alias .a)).ok) (hb : (load4 s.mem (s.alias .b)).ok)
+    (hab : (load4 s.mem (s.alias .a)).val * (load4 s.mem (s.alias .b)).val < R * Bn256.p) :
+    ∃ mem', (call (codeEnv bmi2) Gen.Bn256Asm.gfpMul s junk).final = some (s.alias, mem') ∧
+      (load4 mem' (s.alias .c)).val < Bn256.p ∧
+      (load4 mem' (s.alias .c)).val * R ≡
+        (load4 s.mem (s.alias .a)).val * (load4 s.mem (s.alias .b)).val [MOD Bn256.p] := by
+  obtain ⟨mem', h, hv, _, _⟩ := gfpMul_asm s junk bmi2 ha hb
+  obtain ⟨h1, h2⟩ := mul_correct_at_code_constants _ _ hab
+  exact ⟨mem', h, by rw [hv]; exact h1, by rw [hv]; exact h2⟩
 
 /-- the statement of the property for the three linear primitives: interpreted assembly =
 integer arithmetic modulo p on every pair of reduced operands, under every aliasing -/
